@@ -3,6 +3,8 @@ package main
 import (
 	"encoding/json"
 	"fmt"
+	"os"
+	"path/filepath"
 	"strings"
 	"time"
 
@@ -181,6 +183,27 @@ func dtLine(d rscp.DataType) string {
 func init() {
 	streams["vocab"] = func(g *gen, cw *caseWriter, n int, thorough bool) {
 		cw.add("codes", "codes-ok", "T vocab name-codes", "")
+		// the published vocabulary (frozen snapshot of the pinned commit) must still be there, unchanged
+		if data, err := os.ReadFile(filepath.Join(os.Getenv("VERIF_ROOT"), "lean", "Rscp", "Snapshot", "Vocab.tsv")); err == nil {
+			for _, line := range strings.Split(strings.TrimSpace(string(data)), "\n") {
+				f := strings.Split(line, "\t")
+				if len(f) != 3 {
+					continue
+				}
+				var num, dt uint64
+				fmt.Sscan(f[0], &num)
+				fmt.Sscan(f[2], &dt)
+				t, err := rscp.TagString(f[1])
+				switch {
+				case err != nil:
+					cw.add(fmt.Sprintf("tag %d", num), tagLine(rscp.Tag(num)), "N vocab snapshot", "FAIL C14 published tag name "+f[1]+" is gone")
+				case uint64(t) != num:
+					cw.add(fmt.Sprintf("tag %d", num), tagLine(rscp.Tag(num)), "N vocab snapshot", fmt.Sprintf("FAIL C14 published tag %s changed its number from %d to %d", f[1], num, uint32(t)))
+				case uint64(t.DataType()) != dt:
+					cw.add(fmt.Sprintf("tag %d", num), tagLine(rscp.Tag(num)), "N vocab snapshot", fmt.Sprintf("FAIL C14 published tag %s changed its declared data type from %d to %d", f[1], dt, uint8(t.DataType())))
+				}
+			}
+		}
 		for _, t := range rscp.TagValues() {
 			tagCase(cw, t, "known-tag")
 		}
